@@ -26,7 +26,7 @@ RULE = ("genomes of 1..4 chromosomes (sizes 0..6; names where one is a prefix of
         "END of the genome order. Non-trivial = "
         ">= 2 included chromosomes and some entry touches a chromosome end or position 0")
 EXHAUSTIVE = {"quick": False, "thorough": False}
-MODEL_OPS = {"l2g", "g2l", "pileup", "mask", "merge", "clip", "extend", "windows", "sort", "extract", "location"}
+MODEL_OPS = {"lookup", "l2g", "g2l", "pileup", "mask", "merge", "clip", "extend", "windows", "sort", "extract", "location"}
 PARALLEL = 16
 ASSUMPTIONS = [
     "single-contig operations (arithmetics/intervals.py get_pileup, get_boolean_mask, merge_intervals, clip, extend_to_size) are "
@@ -34,7 +34,8 @@ ASSUMPTIONS = [
     "npstructures RunLengthArray slicing / RunLength2dArray.from_intervals().sum(axis=0) / ragged indexing by (start, stop) pairs "
     "are externals with list-level meaning (dense slice, number of covering intervals)",
     "np.searchsorted(side='right') on a non-decreasing array = number of leading elements <= x; np.lexsort = stable sort by keys",
-    "chromosome-name lookup (StringEncoding / hash table) is exercised by the correspondence with prefix-related names, not proved",
+    "chromosome-name lookup: the npstructures HashTable is an external (key -> stored value, IndexError when absent); absence of "
+    "hash collisions between a foreign name and a genome name is not proved (exercised with prefix / extension / permutation names)",
 ]
 TRUSTED_EXTRA = ["C10: GenomicSequence extraction is compared implementation-vs-oracle only (complement table is C14's)"]
 
@@ -50,12 +51,14 @@ MANIFEST = {
             "array per chromosome of the genome order, all-zero of full length for a chromosome without entries wherever it "
             "is (stream_per_chromosome); get_location lies inside its own interval; Geometry.sort is in genome order. Merge: the shipped rule (merge in concatenated coordinates) is refuted in Lean with the boundary-"
             "touching witness, the repaired per-chromosome rule is proved equal to the per-chromosome single-contig merge. "
-            "Generated obligations: the real clip / extend_to_size are executed on symbolic columns every run and the recorded "
-            "expressions (Gen/C10.lean) are proved equal to the model's kernels with the row's OWN chromosome size; window flanks "
-            "are re-tabulated. "
+            "Generated obligations: the real GenomicIntervalsFull.clip / extended_to_size / get_location and Geometry.clip / "
+            "extend_to_size are executed on symbolic columns every run and the recorded expressions (Gen/C10.lean) are proved equal "
+            "to the model's kernels with the row's OWN chromosome size; window flanks are re-tabulated. Chromosome-name lookup "
+            "(polynomial hash mod 2^31-1 + hash table) is modelled: genome names map to their own index when the hashes are "
+            "distinct (name_lookup_partial; collisions with foreign names are not excluded by proof). "
             "Correspondence: implementation vs Lean model vs Lean spec vs independent Python oracle on every public entry point.",
-    "note": "Single-contig operations are specified, not re-verified here (C08). Name lookup through the hash table and "
-            "GenomicSequence (indexed FASTA, reverse complement) are covered by the correspondence only.",
+    "note": "Single-contig operations are specified, not re-verified here (C08). GenomicSequence (indexed FASTA, reverse "
+            "complement) is covered by the correspondence only; name lookup is proved only up to hash collisions (…_partial).",
     "technique": "Lean 4 proof (induction over the chromosome list / prefix sums) + symbolic tracing of straight-line kernels into "
                  "generated Lean + differential correspondence with the implementation",
     "design": "§6 C10",
@@ -115,6 +118,7 @@ class _Sym:
     __add__ = _binop("+"); __radd__ = _binop("+", True)
     __sub__ = _binop("-"); __rsub__ = _binop("-", True)
     __eq__ = _binop("=="); __ne__ = _binop("!=")
+    __floordiv__ = _binop("//")
 
     def ravel(self):
         return self
@@ -163,22 +167,44 @@ def _trace_kernels():
 
         def __len__(self):
             return 2
+    from bionumpy.datatypes import StrandedInterval
+
+    class IvDuck(StrandedInterval):
+        """passes isinstance(.., Interval) without the column conversion of the real constructor"""
+        def __init__(self, chromosome, start, stop, strand):
+            for k, v in dict(chromosome=chromosome, start=start, stop=stop, strand=strand).items():
+                object.__setattr__(self, k, v)
+
+        def __len__(self):
+            return 2
     ctx = GenomeContext.from_dict(_TRACE_SIZES)
     chrom = as_encoded_array(["c1", "c0"], ctx.encoding)
     duck = lambda: Duck(chrom, _Sym("s"), _Sym("e"), _Sym("strand"))
+    ivduck = lambda: IvDuck(chrom, _Sym("s"), _Sym("e"), _Sym("strand"))
     out = {}
     for name, f in (("clipGenome", lambda: GenomicIntervalsFull(duck(), ctx).clip()),
                     ("clipGeometry", lambda: Geometry(_TRACE_SIZES).clip(duck())),
-                    ("extendGeometry", lambda: Geometry(_TRACE_SIZES).extend_to_size(duck(), _Sym("L")))):
+                    ("extendGeometry", lambda: Geometry(_TRACE_SIZES).extend_to_size(duck(), _Sym("L"))),
+                    ("extendGenome", lambda: GenomicIntervalsFull(ivduck(), ctx, True).extended_to_size(_Sym("L")))):
         try:
             r = f()
             out[name] = (_to_lean(r.start.expr), _to_lean(r.stop.expr))
+        except Exception:
+            out[name] = None
+    for name, stranded, where in (("locStart", True, "start"), ("locStop", True, "stop"), ("locCenter", True, "center"),
+                                  ("locStartU", False, "start"), ("locCenterU", False, "center")):
+        try:
+            l = GenomicIntervalsFull(ivduck(), ctx, stranded).get_location(where)
+            p = l.position
+            out[name] = (_to_lean(p.expr if isinstance(p, _Sym) else None), None)
         except Exception:
             out[name] = None
     return out
 
 
 def _to_lean(e):
+    if e is None:
+        raise NotTraceable("not symbolic")
     if isinstance(e, str):
         if e in ("s", "e", "L"):
             return e
@@ -197,6 +223,8 @@ def _to_lean(e):
         return f"({tag} {_to_lean(e[1])} {_to_lean(e[2])})"
     if tag in ("+", "-"):
         return f"({_to_lean(e[1])} {tag} {_to_lean(e[2])})"
+    if tag == "//" and e[2][0] == "int" and e[2][1] > 0:
+        return f"({_to_lean(e[1])} / {_to_lean(e[2])})"          # floor division by a positive literal = Int ediv
     if tag == "where":
         c = e[1]
         if c[0] == "==" and c[1] == "strand" and c[2] in (("str", "+"), ("str", "-")):
@@ -222,7 +250,10 @@ def _tabulate_flanks():
 
 
 _FALLBACK = {"clipGenome": ("(max (0 : Int) s)", "(min own e)"), "clipGeometry": ("(max (0 : Int) s)", "(min own e)"),
-             "extendGeometry": ("(if fwd = true then s else (max (e - L) (0 : Int)))", "(if fwd = true then (min (s + L) own) else e)")}
+             "extendGeometry": ("(if fwd = true then s else (max (e - L) (0 : Int)))", "(if fwd = true then (min (s + L) own) else e)"),
+             "extendGenome": ("(if fwd = true then s else (max (e - L) (0 : Int)))", "(if fwd = true then (min (s + L) own) else e)"),
+             "locStart": ("(if fwd = true then s else (e - (1 : Int)))", None), "locStop": ("(if fwd = false then s else (e - (1 : Int)))", None),
+             "locCenter": ("((s + e) / (2 : Int))", None), "locStartU": ("s", None), "locCenterU": ("((s + e) / (2 : Int))", None)}
 _TRACED = []
 
 
@@ -234,10 +265,13 @@ def regenerate():
            "`clip` / `extend_to_size` kernels (executed on symbolic columns; `own` = the size the code looked up for the row's own",
            "chromosome, `other` = the size of the other row's chromosome) and the observed window flanks. Do not edit. -/",
            "namespace Gen.C10", ""]
-    for name in ("clipGenome", "clipGeometry", "extendGeometry"):
+    for name in ("clipGenome", "clipGeometry", "extendGeometry", "extendGenome"):
         a, b = tr[name] if tr[name] is not None else _FALLBACK[name]
         out.append(f"def {name}S (s e L own other : Int) (fwd : Bool) : Int := {a}")
         out.append(f"def {name}E (s e L own other : Int) (fwd : Bool) : Int := {b}")
+    for name in ("locStart", "locStop", "locCenter", "locStartU", "locCenterU"):
+        a, _ = tr[name] if tr[name] is not None else _FALLBACK[name]
+        out.append(f"def {name} (s e : Int) (fwd : Bool) : Int := {a}")
     out.append("/-- kernels that were really traced this run (the others fall back to the hand model's formula) -/")
     out.append("def traced : List String := [" + ", ".join(f'"{k}"' for k in _TRACED) + "]")
     out.append("def flankTable : List (Nat × Int × Int) := [" + ", ".join(f"({a}, {b}, {c})" for a, b, c in fl) + "]")
@@ -268,6 +302,11 @@ def _rank(ign):
 def model_request(c):
     d = dict(c)
     d["ign"] = _ign(c)
+    if c["op"] == "lookup":
+        ign = _ign(c)
+        keys = [n for n, g in zip(c["names"], ign) if not g] + [n for n, g in zip(c["names"], ign) if g]
+        d["keys"] = [[ord(ch) for ch in n] for n in keys]
+        d["qs"] = [[ord(ch) for ch in q] for q in c["queries"]]
     return d
 
 
@@ -326,6 +365,10 @@ def _rows(r):
 
 
 def _track_from_vals(c, G):
+    return G.get_track(_bedgraph_from_vals(c))
+
+
+def _bedgraph_from_vals(c):
     from bionumpy.datatypes import BedGraph
     ign = _ign(c)
     names, starts, stops, vals = [], [], [], []
@@ -339,7 +382,7 @@ def _track_from_vals(c, G):
                 j += 1
             names.append(n); starts.append(i); stops.append(j); vals.append(v[i])
             i = j
-    return G.get_track(BedGraph(names, np.array(starts, dtype=int), np.array(stops, dtype=int), np.array(vals, dtype=int)))
+    return BedGraph(names, np.array(starts, dtype=int), np.array(stops, dtype=int), np.array(vals, dtype=int))
 
 
 def _fasta_for(c):
@@ -426,6 +469,17 @@ def _call_stream(c):
         out = {"chroms": _dense_from_runs(c, runs)}
         out.update(_genomewide_stream(T, op))
         return out
+    if op == "windows":
+        cw = dict(c, iv=[[x[0], x[1], x[1] + 1, True] for x in c["pts"]])
+        loc = _stream_gi(cw, False).get_location("start")
+        r = (loc.get_windows(flank=c["flank"]) if c.get("flank") is not None else loc.get_windows(window_size=c["wsize"])).compute()
+        return _obs_intervals(c, r.chromosome, r.start, r.stop)
+    if op == "extract":
+        from bionumpy.streams import NpDataclassStream
+        from bionumpy.datatypes import BedGraph
+        bg = _bedgraph_from_vals(c)
+        track = _genome(c).get_track(NpDataclassStream(iter([bg]), BedGraph))
+        return {"rows": _rows(bnp.compute(track[_stream_gi(c, bool(c.get("stranded", False)))]))}
     if op == "clip":
         r = S().clip().compute()
     elif op == "extend":
@@ -457,6 +511,11 @@ def _call(c):
     stranded = bool(c.get("stranded", False))
     if c.get("path", "mem") != "mem":
         return _call_stream(c)
+    if op == "lookup":
+        from bionumpy.genomic_data.genome_context import GenomeContext, ignore_underscores
+        from bionumpy.encoded_array import as_encoded_array
+        ctx = GenomeContext.from_dict(dict(zip(c["names"], c["sizes"])), ignore_underscores if c.get("filt", True) else None)
+        return {"idx": _ints(as_encoded_array(list(c["queries"]), ctx.encoding).raw())}
     if op in ("l2g", "g2l"):
         from bionumpy.genomic_data.genome_context import GenomeContext, ignore_underscores
         ctx = GenomeContext.from_dict(dict(zip(c["names"], c["sizes"])), ignore_underscores if c.get("filt", True) else None)
@@ -566,6 +625,13 @@ def oracle(c):
     stranded = bool(c.get("stranded", False))
     if via == "geometry" and not c.get("filt", True):
         return SKIP                                    # Geometry always applies the default filter
+    if op == "lookup":
+        if sum(ign) > 1 or not c["queries"]:
+            return SKIP                                # the order of several ignored names among themselves is a set order
+        keys = [n for n, g in zip(c["names"], ign) if not g] + [n for n, g in zip(c["names"], ign) if g]
+        if any(q not in keys for q in c["queries"]):
+            return {"err": "raised"}
+        return {"idx": [keys.index(q) for q in c["queries"]]}
     if op == "l2g":
         if any(rank[x[0]] is None for x in c["pts"]):
             return SKIP
@@ -586,6 +652,8 @@ def oracle(c):
         return {"cp": out}
     if op == "windows":
         if any(rank[x[0]] is None or not (0 <= x[1] < sizes[x[0]]) for x in c["pts"]):
+            return SKIP
+        if c.get("path", "mem") != "mem" and ([x[0] for x in c["pts"]] != sorted(x[0] for x in c["pts"]) or 0 in sizes):
             return SKIP
         if c.get("flank") is not None:
             l, r = c["flank"], c["flank"] + 1
@@ -703,6 +771,8 @@ def nontrivial(c):
     if c["op"] == "g2l":
         offs = set(itertools.accumulate([s for s, g in zip(sizes, ign) if not g]))
         return any(g == 0 or g in offs or g + 1 in offs for g in c["gs"])
+    if c["op"] == "lookup":
+        return any(a != b and (a.startswith(b) or b.startswith(a)) for a in c["names"] for b in c["queries"])
     if c["op"] in ("l2g", "windows"):
         return any(x[1] == 0 or x[1] >= sizes[x[0]] - 1 for x in c["pts"])
     return any(x[1] <= 0 or x[2] >= sizes[x[0]] for x in c["iv"])
@@ -717,6 +787,7 @@ _NAME_POOLS = [
     ["1", "11", "1_1", "2"],
     ["chrX", "chrX_random", "chrXY", "chrY"],
     ["a_b", "a", "ab", "b"],
+    ["ab1", "a1b", "b1a", "1ba"],
 ]
 
 
@@ -828,6 +899,21 @@ def cases(tier, rng):
                 for c in range(n):
                     if not ign[c]:
                         yield {"op": "l2g", "names": names, "sizes": sizes, "filt": filt, "pts": [[c, sizes[c]]]}
+    # 1a. chromosome-name lookup: genome names, names that are prefixes / extensions / permutations of them
+    for pool in _NAME_POOLS:
+        for n in (1, 2, 3, 4):
+            names = pool[:n]
+            for filt in (True, False):
+                base = {"op": "lookup", "names": names, "sizes": [3] * n, "filt": filt}
+                yield dict(base, queries=list(names))
+                yield dict(base, queries=list(reversed(names)) + names[:1])
+                foreign = [names[0] + "1", names[0][:-1] or "x", names[-1][::-1] + "q", names[0] + names[-1], names[0].upper() + "z",
+                           names[-1][::-1], names[0][1:] + names[0][:1], names[-1][:-2] + names[-1][-2:][::-1]]
+                foreign = [q for q in foreign if q and q not in names]
+                for q in foreign:
+                    yield dict(base, queries=[names[0], q])
+                for _ in range(6 if big else 2):
+                    yield dict(base, queries=[rng.choice(names + foreign) for _ in range(rng.choice([1, 2, 4]))])
     yield from _pair_cases(3 if big else 2)
     # 2. random genomes x boundary-heavy entries x every entry point
     N = 6000 if big else 110
@@ -878,14 +964,24 @@ def cases(tier, rng):
         vals = [[rng.choice([0, 1, 1, 2, 7]) for _ in range(s)] for s in sizes]
         if sum(sizes[i] for i in incl):
             yield dict(base, op="extract", iv=iv, stranded=stranded, vals=vals)
+            siv = sorted(iv, key=lambda x: x[0])
+            for path in ("as_stream", "stream"):
+                yield dict(base, op="extract", path=path, iv=siv, stranded=stranded, vals=vals, cuts=[])
         for w in (0, 1, 2):
             yield dict(base, op="location", iv=iv, stranded=stranded, where=w)
         pts = [[c, rng.choice([0, sizes[c] - 1, rng.randrange(sizes[c])])] for c in (rng.choice(incl) for _ in range(max(k, 1))) if sizes[c] > 0]
         if pts:
+            spts = sorted(pts, key=lambda x: x[0])
             if rng.random() < 0.5:
-                yield dict(base, op="windows", pts=pts, flank=rng.choice([0, 1, 2, 5]), wsize=None)
+                f = rng.choice([0, 1, 2, 5])
+                yield dict(base, op="windows", pts=pts, flank=f, wsize=None)
+                for path in ("as_stream", "stream"):
+                    yield dict(base, op="windows", path=path, pts=spts, flank=f, wsize=None, cuts=[])
             else:
-                yield dict(base, op="windows", pts=pts, flank=None, wsize=rng.choice([1, 2, 3, 4, 9]))
+                w = rng.choice([1, 2, 3, 4, 9])
+                yield dict(base, op="windows", pts=pts, flank=None, wsize=w)
+                for path in ("as_stream", "stream"):
+                    yield dict(base, op="windows", path=path, pts=spts, flank=None, wsize=w, cuts=[])
         if all(s > 0 for s in sizes):
             seqs = ["".join(rng.choice("ACGT") for _ in range(s)) for s in sizes]
             yield dict(base, op="seq", iv=iv, stranded=stranded, seqs=seqs, backend="fasta")
